@@ -861,15 +861,19 @@ func (s *Spec) Coordinate() int {
 
 	fmt.Printf("%s %s: executions=%d evaluations=%d distinct_nontrivial=%d outcomes=%d subtrees=%d exhaustive=%v wall=%.1fs\n",
 		s.ID, s.Tier, execs, evals, len(distinct), len(outcomes), len(prefixes), cov["exhaustive"], time.Since(start).Seconds())
-	if len(nondet) > 0 {
-		fmt.Fprintf(os.Stderr, "HARNESS-ERROR NONDETERMINISM: %v\n", nondet)
-		return 2
-	}
 	if len(violKeys) > 0 {
+		// a violation that was reproduced stands, whatever else went wrong in other executions
+		if len(nondet) > 0 {
+			fmt.Fprintf(os.Stderr, "HARNESS-ERROR NONDETERMINISM: %v\n", nondet)
+		}
 		if len(herrs) > 0 {
 			fmt.Fprintf(os.Stderr, "HARNESS-ERROR: %v\n", herrs)
 		}
 		return 1
+	}
+	if len(nondet) > 0 {
+		fmt.Fprintf(os.Stderr, "HARNESS-ERROR NONDETERMINISM: %v\n", nondet)
+		return 2
 	}
 	if len(herrs) > 0 {
 		fmt.Fprintf(os.Stderr, "HARNESS-ERROR: %v\n", herrs)
